@@ -18,6 +18,7 @@ import (
 	"fmt"
 	"os"
 	"path/filepath"
+	"sort"
 	"strings"
 	"syscall"
 	"time"
@@ -547,6 +548,13 @@ func main() {
 		scens = append(scens, extra...)
 	}
 	bound1, bound2 := c.Pick(3, 4), c.Pick(1, 3)
+	// smallest scenarios first, so that a run cut short by its deadline has covered every kind of stream
+	sort.SliceStable(scens, func(i, j int) bool {
+		if scens[i].nw != scens[j].nw {
+			return scens[i].nw < scens[j].nw
+		}
+		return len(scens[i].events) < len(scens[j].events)
+	})
 	seenScen := map[string]bool{}
 	for _, s := range scens {
 		s := s
